@@ -1,7 +1,7 @@
 (* Properties/C17.v — statements only. Admission control is bounded, priority-respecting and
    never strands a submitter. [admission] is the mutex-protected part of addLeafToPool; [victim]
    resolves Go's map iteration order and is universally quantified. *)
-From SL Require Import Ctlog.Model Ctlog.Theorems.
+From SL Require Import Ctlog.Model Ctlog.Theorems Ctlog.Stop Ctlog.Frame Ctlog.Example.
 
 Theorem C17_pool_bounded : forall sha c closed p inseq cache e low victim wid,
   (0 < c_poolsize c)%N -> (N.of_nat (length (pl_leaves p)) <= c_poolsize c)%N ->
@@ -42,3 +42,72 @@ Example C17_example :
   let p := mkPool [mkPend (mkEntry [x01] false [] [] [] []) false 0; mkPend (mkEntry [x02] false [] [] [] []) true 1] [] in
   full (mkCfg [] 7 2) p = true /\ lows p = [1%nat].
 Proof. vm_compute. split; reflexivity. Qed.
+
+(* The stop clause. [EvStop i why] is RunSequencer returning (why = SCancel: its context was
+   cancelled, ctx.Err(); why = SSunset: AcceptingSubmissions() was false at a tick,
+   SunsetLogError) with the instance between rounds; a fatal error inside a round is the subject of
+   C06_refused_cas_is_fatal and C02. Every pending submitter gets exactly one outcome, the error of
+   the stop, in pool order; nothing is written anywhere. *)
+Theorem C17_stop_fails_every_pending_submitter : forall sha w i x why,
+  get_inst (w_insts w) i = Some x -> i_pc x = PIdle ->
+  let w' := fst (step sha w (EvStop i why)) in
+  let o := snd (step sha w (EvStop i why)) in
+  w_lock w' = w_lock w /\ w_lockhist w' = w_lockhist w /\ w_store w' = w_store w /\ w_pubhist w' = w_pubhist w /\
+  (exists x', get_inst (w_insts w') i = Some x' /\ i_pc x' = PStopped /\ i_closed x' = Some (stop_err why) /\
+              pl_leaves (i_pool x') = [] /\ pl_leaves (i_inseq x') = [] /\
+              i_tree x' = i_tree x /\ i_lockcp x' = i_lockcp x) /\
+  o = map (fun y => ObsAck (p_wid y) None (Some (stop_err why))) (pl_leaves (i_pool x)) /\
+  (forall a, In a (w_acks w') -> In a (w_acks w) \/ (a_res a = None /\ a_err a = Some (stop_err why))).
+Proof. exact stop_fails_all_pending. Qed.
+Print Assumptions C17_stop_fails_every_pending_submitter.
+
+(* After a stop (whatever its cause: [er] is any error, EFatal included) the instance is inert: its
+   ticks, steps and further stops change nothing, every later submission fails, and none of its
+   events touches the lock store, the lock history or the published history: no further checkpoint
+   is ever signed by it. (Events of OTHER instances are not constrained by this statement.) *)
+Theorem C17_stopped_instance_is_inert : forall sha w i x er,
+  get_inst (w_insts w) i = Some x -> i_pc x = PStopped -> i_closed x = Some er ->
+  (forall f ch, step sha w (EvStep i f ch) = (w, [ObsNote "step-ignored"])) /\
+  step sha w (EvTick i) = (w, [ObsNote "tick-ignored"]) /\
+  (forall why, step sha w (EvStop i why) = (w, [ObsNote "stop-ignored"])) /\
+  (forall e low victim fs,
+      let w' := fst (step sha w (EvSubmit i e low victim fs)) in
+      w_lock w' = w_lock w /\ w_lockhist w' = w_lockhist w /\ w_pubhist w' = w_pubhist w /\
+      (exists x', get_inst (w_insts w') i = Some x' /\ i_pc x' = PStopped /\ i_closed x' = Some er /\
+                  i_pool x' = i_pool x /\ i_tree x' = i_tree x) /\
+      (forall a, In a (w_acks w') -> In a (w_acks w) \/ (a_res a = None /\ a_err a <> None))).
+Proof. exact stopped_instance_is_inert. Qed.
+Print Assumptions C17_stopped_instance_is_inert.
+
+(* non-vacuity: in Example.world_sunset instance 0 is idle with one pending submitter; the
+   read-only stop answers that submitter with the sunset error and leaves a stopped instance *)
+Example C17_stop_example :
+  (exists x, get_inst (w_insts world_sunset) 0 = Some x /\ i_pc x = PIdle /\ length (pl_leaves (i_pool x)) = 1%nat) /\
+  snd (step toy_sha world_sunset (EvStop 0 SSunset)) = [ObsAck 0 None (Some ESunset)] /\
+  (exists x, get_inst (w_insts (fst (step toy_sha world_sunset (EvStop 0 SSunset)))) 0 = Some x /\
+             i_pc x = PStopped /\ i_closed x = Some ESunset).
+Proof. vm_compute. repeat split; eexists; repeat split; reflexivity. Qed.
+
+(* ... and over whole histories: an event of instance j changes no other slot of the instance
+   table, so once the sequencer of instance i has stopped with error er on tree t, the instance is
+   in exactly that state (stopped, pool closed with er, tree t: it never starts a round, so it never
+   signs a checkpoint) after ANY further events, of any instance, with any faults and tampering, as
+   long as no event puts a new instance into slot i (the harness never reuses a slot). *)
+Theorem C17_event_touches_one_instance : forall sha w e i,
+  ev_inst e <> Some i -> get_inst (w_insts (fst (step sha w e))) i = get_inst (w_insts w) i.
+Proof. exact step_touches_one_slot. Qed.
+Print Assumptions C17_event_touches_one_instance.
+
+Theorem C17_stopped_forever : forall sha evs w i er t,
+  stopped_with w i er t -> forallb (fun e => negb (replaces e i)) evs = true ->
+  stopped_with (run sha evs w) i er t.
+Proof. exact stopped_forever. Qed.
+Print Assumptions C17_stopped_forever.
+
+Example C17_stopped_forever_example :
+  let w := fst (step toy_sha world_sunset (EvStop 0 SSunset)) in
+  let evs := [EvTick 0; EvClock 20; ok 0; EvSubmit 0 (ent x32) false 0 []; EvStart 1 cfg1 None; ok 1; ok 1; EvStop 0 SCancel] in
+  stopped_with w 0 ESunset (i_tree (match get_inst (w_insts world_sunset) 0 with Some x => x | None => inst0 cfg1 end)) /\
+  forallb (fun e => negb (replaces e 0)) evs = true /\
+  length (w_acks (run toy_sha evs w)) = 2%nat.
+Proof. vm_compute. split; [eexists; repeat split; reflexivity|split; reflexivity]. Qed.
